@@ -7,6 +7,7 @@ pub mod c16;
 pub mod c17;
 pub mod c18;
 pub mod c19;
+pub mod c20;
 
 pub struct Prop {
     pub id: &'static str,
@@ -20,7 +21,7 @@ pub struct Prop {
 }
 
 pub fn registry() -> Vec<Prop> {
-    vec![c16::prop(), c17::prop(), c18::prop(), c19::prop()]
+    vec![c16::prop(), c17::prop(), c18::prop(), c19::prop(), c20::prop()]
 }
 
 /// Helper for replay functions: deserialize the stored case and run it.
